@@ -392,7 +392,11 @@ func (e *effectEngine) sharedWrites() []writeSite {
 		fns = append(fns, f)
 	}
 	sort.Slice(fns, func(i, j int) bool { return e.c.FuncKey(fns[i]) < e.c.FuncKey(fns[j]) })
+	onceInit := e.c.onceInitialisers()
 	for _, f := range fns {
+		if onceInit[f] {
+			continue // lazy initialisation under sync.Once: not a write of the evaluation (PURE.global judges it)
+		}
 		for _, b := range f.Blocks {
 			for _, in := range b.Instrs {
 				switch x := in.(type) {
@@ -585,25 +589,9 @@ func pureEvalFor(c *Ctx, rule string, roots []*ssa.Function) []*Obligation {
 	return o.list
 }
 
-func rulePureGlobal(c *Ctx) []*Obligation {
-	o := newObl("PURE.global")
-	// every package-level variable of the library
-	type gi struct {
-		g   *ssa.Global
-		rel string
-	}
-	var globals []gi
-	for rel, sp := range c.SSA {
-		for _, m := range sp.Members {
-			if g, ok := m.(*ssa.Global); ok && !strings.HasPrefix(g.Name(), "init$") {
-				globals = append(globals, gi{g, rel})
-			}
-		}
-	}
-	sort.Slice(globals, func(i, j int) bool { return globals[i].rel+globals[i].g.Name() < globals[j].rel+globals[j].g.Name() })
-	mutators := map[string]bool{"Assign": true, "Clear": true, "SetLength": true, "SetByIndex": true}
-	// functions handed to (*sync.Once).Do run at most once, before any reader gets past Do, with the
-	// synchronisation Once provides: lazy initialisation is initialisation
+// onceInitialisers: functions handed to (*sync.Once).Do (a named one only if Once.Do is its sole user). They run at
+// most once, before any reader gets past Do, with the synchronisation Once provides: what they write is initialisation.
+func (c *Ctx) onceInitialisers() map[*ssa.Function]bool {
 	onceInit := map[*ssa.Function]bool{}
 	for _, fn := range c.AllLibFuncs() {
 		for _, ci := range allCalls(fn) {
@@ -638,6 +626,29 @@ func rulePureGlobal(c *Ctx) []*Obligation {
 			}
 		}
 	}
+	return onceInit
+}
+
+func rulePureGlobal(c *Ctx) []*Obligation {
+	o := newObl("PURE.global")
+	// every package-level variable of the library
+	type gi struct {
+		g   *ssa.Global
+		rel string
+	}
+	var globals []gi
+	for rel, sp := range c.SSA {
+		for _, m := range sp.Members {
+			if g, ok := m.(*ssa.Global); ok && !strings.HasPrefix(g.Name(), "init$") {
+				globals = append(globals, gi{g, rel})
+			}
+		}
+	}
+	sort.Slice(globals, func(i, j int) bool { return globals[i].rel+globals[i].g.Name() < globals[j].rel+globals[j].g.Name() })
+	mutators := map[string]bool{"Assign": true, "Clear": true, "SetLength": true, "SetByIndex": true}
+	// functions handed to (*sync.Once).Do run at most once, before any reader gets past Do, with the
+	// synchronisation Once provides: lazy initialisation is initialisation
+	onceInit := c.onceInitialisers()
 	for _, x := range globals {
 		key := x.rel + "." + x.g.Name() + "#read-only"
 		bad := ""
